@@ -268,6 +268,28 @@ func runIdempotent(c *core.Ctx) {
 					}
 				}
 			}
+			if !tested && returnsCreateErr(r, fn) == call {
+				// the error is handed to the callers as it is: they recognise it
+				sites := c.P.Callers(fn)
+				all := len(sites) > 0
+				for _, site := range sites {
+					ce := an.ErrResult(site)
+					ok := false
+					if ce != nil && site.Common().StaticCallee() == fn {
+						for _, b := range site.Parent().Blocks {
+							if ifi := an.BlockIf(b); ifi != nil {
+								if x, tgt, _, isT := an.ErrIsTest(ifi); isT && x == ce && an.IsGlobalLoad(tgt, r.TypesPath, "ErrBlobExists") {
+									ok = true
+								}
+							}
+						}
+					}
+					if !ok {
+						all = false
+					}
+				}
+				tested = all
+			}
 			if tested {
 				c.Pass(key, call.Pos(), "‘already exists’ is recognised")
 			} else {
@@ -1580,14 +1602,37 @@ func init() {
 							res[key] = v
 						}
 						v.n++
-						for _, g := range an.GuardingEdges(b) {
-							cond := g.If().Cond
-							base, _ := an.CondBase(cond)
-							// count comparison: operands are limit fields, len(entries) or constants
-							okCount := false
-							if bo, ok := base.(*ssa.BinOp); ok {
-								okCount = true
-								for _, o := range []ssa.Value{bo.X, bo.Y} {
+						// count comparison: operands are limit fields, len(entries) or constants; a materialised
+						// `a && b` (a φ of booleans) is one when every operand is
+						var countCond func(v ssa.Value, depth int) bool
+						countCond = func(v ssa.Value, depth int) bool {
+							base, _ := an.CondBase(v)
+							switch x := base.(type) {
+							case *ssa.Const:
+								return true
+							case *ssa.Phi:
+								if depth > 4 {
+									return false
+								}
+								for _, e := range x.Edges {
+									if !countCond(e, depth+1) {
+										return false
+									}
+								}
+								// the operands were evaluated under conditions of the same kind
+								for _, p := range x.Block().Preds {
+									for _, g := range an.GuardingEdges(p) {
+										if g.Synthetic() || an.EdgeDominates(g.From, g.Succ, x.Block()) {
+											continue
+										}
+										if !countCond(g.If().Cond, depth+1) {
+											return false
+										}
+									}
+								}
+								return true
+							case *ssa.BinOp:
+								for _, o := range []ssa.Value{x.X, x.Y} {
 									if _, isC := an.Strip(o).(*ssa.Const); isC {
 										continue
 									}
@@ -1599,14 +1644,20 @@ func init() {
 									if f, ok := fieldName(o); ok && (strings.Contains(strings.ToLower(f), "count") || strings.Contains(strings.ToLower(f), "max") || strings.Contains(strings.ToLower(f), "min")) {
 										continue
 									}
-									okCount = false
+									return false
 								}
-								// the receiver nil test at the top of the function
-								if x, _, isNil := an.NilTest(g.If()); isNil && x == ssa.Value(fn.Params[0]) {
-									okCount = true
-								}
+								return true
 							}
-							if okCount {
+							return false
+						}
+						for _, g := range an.GuardingEdges(b) {
+							cond := g.If().Cond
+							base, _ := an.CondBase(cond)
+							// the receiver nil test at the top of the function
+							if x, _, isNil := an.NilTest(g.If()); isNil && x == ssa.Value(fn.Params[0]) {
+								continue
+							}
+							if countCond(cond, 0) {
 								continue
 							}
 							// a busy flag: boolean field of the cache
@@ -1617,6 +1668,10 @@ func init() {
 									}
 									continue
 								}
+							}
+							// a materialised conjunction whose atoms are judged one by one
+							if _, isPhi := base.(*ssa.Phi); isPhi && !g.Synthetic() && an.Decomposes(g) {
+								continue
 							}
 							v.bad = fmt.Sprintf("the start of the count pruner in %s at %s depends on a condition (%s) other than the count comparison", name, c.P.Pos(in.Pos()), c.P.Pos(cond.Pos()))
 						}
